@@ -1,4 +1,4 @@
------------------------------- MODULE MCSync ------------------------------
+------------------------------ MODULE SyncMC ------------------------------
 (* Model-checking constants and edge export for Sync.tla (properties C12, C11). *)
 EXTENDS Sync, Json
 
